@@ -222,12 +222,7 @@ impl ExecutionCtx<'_> {
 }
 
 // everything the C05/C06/C07/C19 contracts watch, except the unconsumed results and the completeness flag
-pub open spec fn same_but_results(a: ExecutionCtx, b: ExecutionCtx) -> bool {
-    &&& a.requests() == b.requests()
-    &&& a.next_peers() == b.next_peers()
-    &&& a.lcid() == b.lcid()
-    &&& a.me() == b.me()
-}
+
 
 // ---------------------------------------------------------------- shim: trace handler (trusted)
 pub struct CanonResult { pub sent_by: Option<Rc<String>> }
@@ -253,11 +248,9 @@ impl TraceHandler {
     { unimplemented!() }
 }
 
-pub open spec fn pushed_one(before: Seq<CallResult>, after: Seq<CallResult>, p: spec_fn(CallResult) -> bool) -> bool {
-    after.len() == before.len() + 1 && after.drop_last() =~= before && p(after.last())
-}
-pub open spec fn is_executed(c: CallResult) -> bool { c is Executed }
-pub open spec fn is_failed(c: CallResult) -> bool { c is Failed }
+
+
+
 
 // ---------------------------------------------------------------- prev_result_handler.rs: StateDescriptor real, handle_prev_state external
 //@ lift air/src/execution_step/instructions/call/prev_result_handler.rs :: struct StateDescriptor
@@ -291,64 +284,10 @@ impl StateDescriptor {
 }
 
 // ---- the decision table of handle_prev_state: identical text to unit prev_result, where it is proved for the real function
-pub open spec fn own_pending(c: CallResult, me: Seq<char>) -> Option<u32> {
-    match c {
-        CallResult::RequestSentBy(Sender::PeerIdWithCallId { peer_id, call_id }) => if peer_id@ == me { Some(call_id) } else { None },
-        _ => None,
-    }
-}
-pub open spec fn prev_state_table(
-    c: CallResult, target: Seq<char>, ctx0: ExecutionCtx, ctx1: ExecutionCtx,
-    pushed0: Seq<CallResult>, pushed1: Seq<CallResult>, r: ExecutionResult<StateDescriptor>,
-) -> bool {
-    match own_pending(c, ctx0.me()) {
-        Some(id) => if !ctx0.results().contains_key(dec(id)) {
-            &&& ctx1.results() =~= ctx0.results()
-            &&& pushed1 == pushed0
-            &&& (r matches Ok(sd) && sd.is(false, Some(c)))
-            &&& !ctx1.complete()
-        } else {
-            &&& ctx1.results() =~= ctx0.results().remove(dec(id))
-            &&& r matches Ok(sd) ==> sd.is(false, None)
-                    && pushed_one(pushed0, pushed1, |x: CallResult| is_executed(x))
-            &&& r is Err ==> (pushed_one(pushed0, pushed1, |x: CallResult| is_failed(x)) || pushed1 == pushed0)
-        },
-        None => {
-            &&& ctx1.results() =~= ctx0.results()
-            &&& match c {
-                CallResult::Executed(_) => {
-                    &&& r matches Ok(sd) ==> sd.is(false, None) && pushed1 == pushed0.push(c)
-                    &&& r is Err ==> pushed1 == pushed0
-                }
-                CallResult::Failed(_) => {
-                    &&& r is Err
-                    &&& (pushed1 == pushed0.push(c) || pushed1 == pushed0)
-                    &&& (pushed1 == pushed0.push(c) ==> !ctx1.complete())
-                }
-                CallResult::RequestSentBy(_) => {
-                    &&& pushed1 == pushed0
-                    &&& (r matches Ok(sd) && sd.is(target == ctx0.me(), Some(c)))
-                    &&& (target != ctx0.me() ==> !ctx1.complete())
-                }
-            }
-        }
-    }
-}
+//@ import-spec prev_result :: same_but_results pushed_one is_executed is_failed own_pending hash_needed prev_state_table
 
-#[verifier::external_body]
-pub fn handle_prev_state<'i>(
-    met_result: MetCallResult,
-    tetraplet: &RcSecurityTetraplet,
-    argument_hash: Option<&Rc<str>>,
-    output: &CallOutputValue<'i>,
-    exec_ctx: &mut ExecutionCtx<'i>,
-    trace_ctx: &mut TraceHandler,
-) -> (r: ExecutionResult<StateDescriptor>)
-    ensures
-        same_but_results(*old(exec_ctx), *final(exec_ctx)),
-        prev_state_table(met_result.result, tetraplet.peer_pk@, *old(exec_ctx), *final(exec_ctx),
-            old(trace_ctx).pushed@, final(trace_ctx).pushed@, r),
-{ unimplemented!() }
+//@ stub prev_result :: handle_prev_state
+
 
 // ---------------------------------------------------------------- call_result_setter.rs: handle_remote_call (C19.V1)
 // "marked as sent to another peer  =>  that peer is among the next peers", at the only producer of the mark
